@@ -107,7 +107,9 @@ def run_case(case):
         restrict = ['-contig', r.choice(contigs)[0]] if r.random() < 0.35 else []
         cfg0['restricted_to'] = restrict[1] if restrict else None
         acc.count('run:restricted_to_one_contig', 1 if restrict else 0)
-        exc, txt = T.run_cli([bam, '-o', out_s, '-method', method, '-umi_hamming_distance', '1'] + restrict)
+        # how often the molecule buffer is checked for ejection is a tuning constant; every run draws its own value (the serial run too)
+        ej = lambda: r.choice([None, 0, 1, 4, 20])
+        exc, txt = T.run_cli([bam, '-o', out_s, '-method', method, '-umi_hamming_distance', '1'] + restrict, eject_every=ej())
         acc.count('run:serial')
         if exc is not None:
             acc.violate('serial-run-raised', f'serial tagger raised {exc!r} ({cfg0})', {'config': cfg0})
@@ -181,7 +183,7 @@ def run_case(case):
         cfg = {'mode': 'contig_per_process', 'workers': k, 'delay_seed': case['i']}
         captured = {}
         exc, txt = T.run_cli([bam, '-o', out_p, '-method', method, '-umi_hamming_distance', '1', '--multiprocess', '-tagthreads', str(k), '-temp_folder', dd] + restrict,
-                             event_file=ev1, delay_seed=case['i'])
+                             event_file=ev1, delay_seed=case['i'], eject_every=ej())
         acc.count('run:contig_per_process')
         if exc is not None:
             acc.violate('parallel-run-raised', f'--multiprocess raised {exc!r} ({cfg})', dict(wit0, run=cfg))
@@ -213,7 +215,7 @@ def run_case(case):
             kw.update(out_bam_path=out_t, one_contig_per_process=False, bp_per_segment=cfg['bp_per_segment'], bp_per_job=cfg['bp_per_job'],
                       fragment_size=cfg['fragment_size'], use_pool=use_pool, n_threads=cfg['workers'], temp_folder_root=dd)
             err = None
-            with T.instrumented(ev, cfg['delay_seed']) as b2:
+            with T.instrumented(ev, cfg['delay_seed'], ej()) as b2:
                 try:
                     with contextlib.redirect_stdout(io.StringIO()), contextlib.redirect_stderr(io.StringIO()):
                         if use_pool:
